@@ -36,7 +36,11 @@ POOLS = {
                  dict(alpha=dict(nv=3, maxl=1, maxar=2, classes=("D", "O"), raw=True, bad=False, none_ends=True,
                                  explicit_ops=False, nu=1, membership=True))],
 }
-KEYS = [("FWD", "NBR", "none"), ("ANY", "NBR", "selv"), ("BWD", "NON", "none")]
+# the same (unknown handling, filter) under all three directions, plus a filtered and a NON key
+KEYS = [("FWD", "NBR", "none"), ("ANY", "NBR", "none"), ("BWD", "NBR", "none"),
+        ("ANY", "NBR", "selv"), ("BWD", "NON", "none")]
+# single-key queries (partial memos: one direction cached, another about to be asked)
+SINGLE = [("FWD", "NBR", "none"), ("ANY", "NBR", "none")]
 
 
 # ---- mutations by container type ---------------------------------------------------
@@ -327,11 +331,19 @@ class Sys:
         out = list(self.alpha.ops(w))
         for i in range(len(w.v)):
             out.append(("warm", i))
+        for k in SINGLE:
+            out.append(("query", 0) + k)
         out.append(("flag", not w.flag))
         return out
 
     def apply(self, w, op):
         Vertex.NEIGHBOR_CACHING = w.flag
+        if op[0] == "query":
+            try:
+                helpers.neighbors(w.v[op[1]], DIRS[op[2]], UNKS[op[3]], NB_FILTERS[op[4]])
+            except Exception:  # noqa: BLE001
+                pass
+            return ("ret", None)
         if op[0] == "warm":
             for (d, u, f) in KEYS:
                 try:
